@@ -146,7 +146,12 @@ class ASEEngine(EngineBase):
         traj_file = os.path.join(self.exe_dir, f"{name}.traj")
         traj = Trajectory(traj_file, "w")
         msg_file.write(f"# Trajectory file is: {traj_file}")
-        dyn = self.Integrator(atoms, **self.integrator_settings)
+        integrator_settings = dict(self.integrator_settings)
+        if self.Integrator is Langevin:
+            # the thermostat noise comes from the job's own random stream,
+            # not from numpy's global generator (which forked workers share)
+            integrator_settings["rng"] = getattr(self, "rgen", None)
+        dyn = self.Integrator(atoms, **integrator_settings)
         atoms.calc = self.calc
         # we give the calculator object the system and order
         # information in case it is needed during force calculations
